@@ -1018,7 +1018,7 @@ class BleDomain(Registry):
         :rtype: Triggered
         """
         return BleDomain.bound("triggered", self.proto_version)(
-            seq_id=seq_id
+            sequence_id=seq_id
         )
 
     def create_trigger(self, seq_id: int) -> HubMessage:
